@@ -94,7 +94,7 @@ def main():
                 comp, r = COMP[cls]
                 mode = "exact" if gen in ("factory", "factory_square") else "quant"
                 t = {"tid": tid, "n": n, "mode": mode, "comp": comp, "r": r, "gap": gap, "steps": steps, "repetitions": repetitions, "p": p,
-                     "solver": solver_name, "generator": gen, "seed": seed, "continuous": int(gen in CONTINUOUS), "exc": "", "reps": [], "same_p1": -1}
+                     "solver": solver_name, "generator": gen, "seed": seed, "continuous": int(gen in CONTINUOUS), "exc": "", "reps": [], "same_p1": -1, "games_same_p1": -1}
                 log = logdir / f"t{tid}.jsonl"
                 try:
                     inst = ModelInstance(number_of_players=n, game_class=cls, game_generator=gen, gap_function=gap, run_steps_limit=steps,
@@ -133,6 +133,7 @@ def main():
                     if first is None:
                         first = sig
                     t["same_p1"] = int(sig == first)
+                    t["games_same_p1"] = int([x[0] for x in sig] == [x[0] for x in first])
                 except D.DriverError:
                     raise
                 except Exception as ex:  # noqa: BLE001
